@@ -28,10 +28,13 @@ void __cxa_deleted_virtual(void) { __verif_terminate(); }
 
 #ifndef __CPROVER__
 /* ------------------------------------------------------------------ native replay */
-/* link-time stand-ins for ABI objects that generated code only takes the address of */
+/* link-time stand-ins for ABI objects that generated C only takes the address of
+ * (not for native C++ builds, which get the real ones from libsupc++) */
+#ifdef VERIF_C_NATIVE
 char _ZTVN10__cxxabiv117__class_type_infoE[128], _ZTVN10__cxxabiv120__si_class_type_infoE[128],
      _ZTVN10__cxxabiv121__vmi_class_type_infoE[128], _ZTVN10__cxxabiv119__pointer_type_infoE[128],
      _ZTVN10__cxxabiv123__fundamental_type_infoE[128], _ZTIv[16], _ZTIi[16], _ZTIPKc[32], _ZTIc[16];
+#endif
 int __rt_failed = 0;
 _Bool __verif_native(void) { return 1; }
 void __verif_observe(u64 v) { printf("OBS %llu\n", v); }
